@@ -18,6 +18,8 @@
 //!      the full product of composable EE-certificate and CRL options (benign
 //!      spellings and violations alike) x 9 evaluation instants around a narrow
 //!      and a wide window, and attribute settings x those options;
+//!      fields the verdict must ignore (revocation dates, entry extensions, CRL
+//!      number, names, signing times, algorithm spellings) x listing state x instants;
 //!  (c) every single-bit flip of one library-created and two foreign messages.
 //!
 //! Reference model: the condition vector itself (valid <=> all true).
@@ -108,6 +110,33 @@ const OID_PRIVATE: &[u64] = &[1, 3, 6, 1, 4, 1, 99999, 2, 1];
 
 fn name(cn: &str) -> Vec<u8> { der::seq(&[der::set_unsorted(&[der::seq(&[der::oid(OID_CN), der::printable(cn)])])]) }
 
+/// 0 = CN only, 1 = another CN, 2 = two RDNs (CN + serialNumber) with a UTF8String CN.
+fn name_variant(cn: &str, v: u8) -> Vec<u8> {
+    match v {
+        0 => name(cn),
+        1 => name("Somebody Else 0123456789"),
+        _ => der::seq(&[der::set_unsorted(&[der::seq(&[der::oid(OID_CN), der::utf8(cn)])]),
+                        der::set_unsorted(&[der::seq(&[der::oid(&[2, 5, 4, 5]), der::printable("0A1B2C")])])]),
+    }
+}
+
+/// Fields of a CRL that the acceptance predicate must not consult.
+/// dates: 0 = long before thisUpdate, 1 = thisUpdate, 2 = T0+150 s (inside both windows, after the
+/// earlier evaluation instants), 3 = nextUpdate, 4 = a day after nextUpdate, 5 = year 2052
+/// (GeneralizedTime), 6 = year 1949 (GeneralizedTime).
+/// entry_ext: 0 = as the shape says, 1 = reasonCode on every entry, 2 = reasonCode + invalidityDate + critical private extension.
+/// number: 0 = as given, 1 = 0, 2 = 2^64, 3 = 2^159-1.
+#[derive(Clone, Copy, Debug, PartialEq, Eq, PartialOrd, Ord)]
+struct CrlIgn { ee_date: u8, other_date: u8, entry_ext: u8, number: u8, issuer: u8, ee_leading_zero: bool }
+
+impl CrlIgn { const DEFAULT: CrlIgn = CrlIgn { ee_date: 0, other_date: 0, entry_ext: 0, number: 0, issuer: 0, ee_leading_zero: false }; }
+
+const N_DATES: u8 = 7;
+
+fn entry_date(v: u8, this: i64, next: i64) -> i64 {
+    match v { 0 => this - 1000, 1 => this, 2 => T0 + 150, 3 => next, 4 => next + 86_400, 5 => 2_600_000_000, _ => -631_152_001 }
+}
+
 fn ext(oid: &[u64], critical: bool, value: &[u8]) -> Vec<u8> {
     let mut v = vec![der::oid(oid)];
     if critical { v.push(der::boolean(true)) }
@@ -129,6 +158,9 @@ struct EeSpec {
     aki: Option<Vec<u8>>,
     basic: Basic,
     key_usage_ext: bool,
+    /// spelling of the issuer / subject names (see `name_variant`); not consulted by validation
+    issuer: u8,
+    subject: u8,
 }
 
 fn ee_cert(s: &PoolSigner, e: &EeSpec) -> Vec<u8> {
@@ -146,9 +178,9 @@ fn ee_cert(s: &PoolSigner, e: &EeSpec) -> Vec<u8> {
         der::ctx(0, true, &der::int_u(2)),
         der::int_bytes(&e.serial),
         der::alg_sha256_with_rsa(),
-        name("peer-ta"),
+        name_variant("peer-ta", e.issuer),
         der::seq(&[x509_time(e.nb), x509_time(e.na)]),
-        name("one-off-ee"),
+        name_variant("one-off-ee", e.subject),
         s.key(e.subject_key).spki_der.clone(),
         der::ctx(3, true, &der::seq(&exts)),
     ]);
@@ -166,14 +198,25 @@ struct CrlSpec {
     unknown_ext: bool,
     /// false = no crlExtensions block at all
     ext_block: bool,
+    ign: CrlIgn,
+    /// which entry is "the EE's" (only to tell ee_date from other_date)
+    ee_serial: Vec<u8>,
 }
 
 fn crl(s: &PoolSigner, c: &CrlSpec) -> Vec<u8> {
-    let mut items = vec![der::int_u(1), der::alg_sha256_with_rsa(), name("peer-ta"), x509_time(c.this), x509_time(c.next)];
+    let mut items = vec![der::int_u(1), der::alg_sha256_with_rsa(), name_variant("peer-ta", c.ign.issuer), x509_time(c.this), x509_time(c.next)];
     if let Some(list) = &c.revoked {
         let entries: Vec<Vec<u8>> = list.iter().map(|(ser, with_ext)| {
-            let mut e = vec![der::int_bytes(ser), x509_time(c.this - 1000)];
-            if *with_ext { e.push(der::seq(&[ext(OID_CRL_REASON, false, &der::tlv(0x0a, &[1]))])) }
+            let is_ee = *ser == c.ee_serial;
+            let date = entry_date(if is_ee { c.ign.ee_date } else { c.ign.other_date }, c.this, c.next);
+            let serial = if is_ee && c.ign.ee_leading_zero { let mut v = vec![0u8]; v.extend_from_slice(ser); der::tlv(der::T_INT, &v) } else { der::int_bytes(ser) };
+            let mut e = vec![serial, x509_time(date)];
+            let reason = ext(OID_CRL_REASON, false, &der::tlv(0x0a, &[1]));
+            match (c.ign.entry_ext, *with_ext) {
+                (0, false) => {}
+                (0, true) | (1, _) => e.push(der::seq(&[reason])),
+                _ => e.push(der::seq(&[reason, ext(&[2, 5, 29, 24], false, &der::gentime(civil(c.this - 5000))), ext(OID_PRIVATE, true, &der::seq(&[der::int_u(1)]))])),
+            }
             der::seq(&e)
         }).collect();
         items.push(der::seq(&entries));
@@ -181,7 +224,10 @@ fn crl(s: &PoolSigner, c: &CrlSpec) -> Vec<u8> {
     if c.ext_block {
         let mut exts = Vec::new();
         if let Some(a) = &c.aki { exts.push(ext(OID_AKI, false, &der::seq(&[der::ctx(0, false, a)]))) }
-        if let Some(n) = c.number { exts.push(ext(OID_CRL_NUMBER, false, &der::int_u(n))) }
+        if let Some(n) = c.number {
+            let v = match c.ign.number { 0 => der::int_u(n), 1 => der::int_u(0), 2 => der::int_u(1u128 << 64), _ => { let mut b = vec![0x7fu8]; b.extend([0xffu8; 19]); der::int_bytes(&b) } };
+            exts.push(ext(OID_CRL_NUMBER, false, &v))
+        }
         if c.unknown_ext {
             exts.push(ext(OID_PRIVATE, false, &der::seq(&[der::utf8("hello"), der::int_u(7)])));
             exts.push(ext(OID_ISSUING_DP, true, &der::seq(&[])));
@@ -197,10 +243,10 @@ fn crl(s: &PoolSigner, c: &CrlSpec) -> Vec<u8> {
 enum Extra { Bst, Unk1, Unk100, Unk200 }
 const EXTRAS: [Extra; 4] = [Extra::Bst, Extra::Unk1, Extra::Unk100, Extra::Unk200];
 
-fn extra_attr(e: Extra) -> Vec<u8> {
+fn extra_attr(e: Extra, bst_secs: i64) -> Vec<u8> {
     let unk = |n: usize, arc: u64| der::attribute(&[1, 3, 6, 1, 4, 1, 99999, 3, arc], &[der::octets(&(0..n).map(|i| (i * 5 + 1) as u8).collect::<Vec<_>>())]);
     match e {
-        Extra::Bst => der::attr_binary_signing_time((T0 - 60) as u64),
+        Extra::Bst => der::attr_binary_signing_time(bst_secs as u64),
         Extra::Unk1 => unk(1, 1),
         Extra::Unk100 => unk(100, 2),
         Extra::Unk200 => unk(200, 3),
@@ -242,13 +288,18 @@ struct Plan {
     ee: EeV,
     crl: CrlV,
     prof: ProfV,
+    /// values the acceptance predicate must not consult
+    st_secs: i64,
+    bst_secs: i64,
+    sig_alg: u8,
+    digest_null: bool,
 }
 
 const ATTR_NAMES: [&str; 3] = ["ct", "md", "st"];
 
 impl Plan {
     fn base() -> Plan {
-        Plan { order: [0, 1, 2], extras: vec![], extras_first: false, st_gen: false, digest: DigestV::Ok, sig: SigV::Ok, ee: EeV::Plain, crl: CrlV::Plain, prof: ProfV::Ok }
+        Plan { order: [0, 1, 2], extras: vec![], extras_first: false, st_gen: false, digest: DigestV::Ok, sig: SigV::Ok, ee: EeV::Plain, crl: CrlV::Plain, prof: ProfV::Ok, st_secs: T0 - 60, bst_secs: T0 - 60, sig_alg: 0, digest_null: false }
     }
     fn stated_ok(&self) -> bool { self.digest == DigestV::Ok && self.sig == SigV::Ok && self.ee.ok() && self.crl.ok() }
     fn all_ok(&self) -> bool { self.stated_ok() && self.prof == ProfV::Ok }
@@ -282,7 +333,7 @@ fn ee_serial(v: EeV) -> Vec<u8> {
 
 fn plan_ee(fx: &Fx, p: &Plan) -> Vec<u8> {
     let mut e = EeSpec { serial: ee_serial(p.ee), nb: T0 - W, na: T0 + W, subject_key: K_EE, sign_key: K_PEER, ski: None,
-                         aki: Some(fx.s.key(K_PEER).ski.to_vec()), basic: Basic::Absent, key_usage_ext: false };
+                         aki: Some(fx.s.key(K_PEER).ski.to_vec()), basic: Basic::Absent, key_usage_ext: false, issuer: 0, subject: 0 };
     match p.ee {
         EeV::Plain | EeV::BigSerial => {}
         EeV::NoAki => e.aki = None,
@@ -310,7 +361,7 @@ fn plan_crl(fx: &Fx, p: &Plan) -> Vec<u8> {
         (vec![0x34, 0x56], false), (vec![0x01], false), { let mut b = vec![0x7f]; b.extend([0xffu8; 18]); b.push(0xfe); (b, false) },
     ];
     let mut c = CrlSpec { this: T0 - W, next: T0 + W, sign_key: K_PEER, revoked: Some(vec![]), aki: Some(fx.s.key(K_PEER).ski.to_vec()),
-                          number: Some(42), unknown_ext: false, ext_block: true };
+                          number: Some(42), unknown_ext: false, ext_block: true, ign: CrlIgn::DEFAULT, ee_serial: EE_SERIAL.to_vec() };
     match p.crl {
         CrlV::Plain => {}
         CrlV::RevokedAbsent => c.revoked = None,
@@ -343,10 +394,10 @@ fn plan_attrs(fx: &Fx, p: &Plan) -> (Vec<Vec<u8>>, Vec<Vec<u8>>) {
         DigestV::OfOtherContent => { let mut c = fx.content.clone(); c.push(b' '); sha256(&c) }
     };
     let ct: &[u64] = if p.prof == ProfV::CtAttrOther || p.prof == ProfV::CtBothOther { der::OID_CT_ROA } else { der::OID_CT_PROTOCOL };
-    let t = if p.st_gen { der::gentime(civil(T0 - 60)) } else { der::utctime(civil(T0 - 60)) };
+    let t = if p.st_gen { der::gentime(civil(p.st_secs)) } else { der::time_auto(civil(p.st_secs)) };
     let base = [der::attr_content_type(ct), der::attr_message_digest(&dg), der::attr_signing_time(t)];
     let mandatory: Vec<Vec<u8>> = p.order.iter().map(|&i| base[i].clone()).collect();
-    let extras: Vec<Vec<u8>> = p.extras.iter().map(|e| extra_attr(*e)).collect();
+    let extras: Vec<Vec<u8>> = p.extras.iter().map(|e| extra_attr(*e, p.bst_secs)).collect();
     let mut all = Vec::new();
     if p.extras_first { all.extend(extras.clone()); all.extend(mandatory.clone()) } else { all.extend(mandatory.clone()); all.extend(extras) }
     (all, mandatory)
@@ -371,16 +422,16 @@ fn wrap(fx: &Fx, p: &Plan, ps: &Presigned, sid_other: bool, ee: &[u8], crl: &[u8
     let sid = if sid_other || p.prof == ProfV::SidOther || p.prof == ProfV::SkiExtOther { fx.s.key(K_EE2).ski.to_vec() } else { fx.s.key(K_EE).ski.to_vec() };
     der::signed_data(&SignedDataParts {
         version: 3,
-        digest_alg_set: der::set_unsorted(&[der::alg_sha256(false)]),
+        digest_alg_set: der::set_unsorted(&[der::alg_sha256(p.digest_null)]),
         econtent_type: if p.prof == ProfV::CtBothOther { der::OID_CT_ROA.to_vec() } else { der::OID_CT_PROTOCOL.to_vec() },
         econtent: fx.content.clone(),
         certificates: vec![ee.to_vec()],
         crls: vec![crl.to_vec()],
         si_version: 3,
         sid,
-        si_digest_alg: der::alg_sha256(false),
+        si_digest_alg: der::alg_sha256(p.digest_null),
         signed_attrs: ps.attrs.clone(),
-        sig_alg: der::alg_rsa_encryption(),
+        sig_alg: match p.sig_alg { 0 => der::alg_rsa_encryption(), 1 => der::alg_sha256_with_rsa(), 2 => der::seq(&[der::oid(der::OID_RSA_ENCRYPTION)]), _ => der::seq(&[der::oid(der::OID_SHA256_WITH_RSA)]) },
         signature: ps.signature.clone(),
     })
 }
@@ -441,7 +492,7 @@ fn ee_from(s: &PoolSigner, o: &EeO) -> Vec<u8> {
     let w = if o.wide { WIDE } else { NARROW };
     ee_cert(s, &EeSpec { serial: big_or_small_serial(o.big_serial), nb: T0 - w, na: T0 + w, subject_key: K_EE, sign_key: if o.other_key { K_OTHER } else { K_PEER },
         ski: if o.ski_other { Some(s.key(K_EE2).ski.to_vec()) } else { None }, aki: aki_value(s, o.aki),
-        basic: match o.basic { 0 => Basic::Absent, 1 => Basic::EmptySeq, _ => Basic::CaTrue }, key_usage_ext: o.key_usage })
+        basic: match o.basic { 0 => Basic::Absent, 1 => Basic::EmptySeq, _ => Basic::CaTrue }, key_usage_ext: o.key_usage, issuer: 0, subject: 0 })
 }
 
 fn other_serials() -> Vec<Vec<u8>> {
@@ -449,7 +500,9 @@ fn other_serials() -> Vec<Vec<u8>> {
          { let mut b = vec![0x7f]; b.extend([0xffu8; 18]); b.push(0xfe); b }]
 }
 
-fn crl_from(s: &PoolSigner, o: &CrlO, big_serial: bool) -> Vec<u8> {
+fn crl_from(s: &PoolSigner, o: &CrlO, big_serial: bool) -> Vec<u8> { crl_from_ign(s, o, big_serial, CrlIgn::DEFAULT) }
+
+fn crl_from_ign(s: &PoolSigner, o: &CrlO, big_serial: bool, ign: CrlIgn) -> Vec<u8> {
     let w = if o.wide { WIDE } else { NARROW };
     let ee = big_or_small_serial(big_serial);
     let others = other_serials();
@@ -464,7 +517,7 @@ fn crl_from(s: &PoolSigner, o: &CrlO, big_serial: bool) -> Vec<u8> {
         _ => { let mut l: Vec<_> = others.iter().map(|x| (x.clone(), true)).collect(); l.push((ee, false)); Some(l) }
     };
     crl(s, &CrlSpec { this: T0 - w, next: T0 + w, sign_key: if o.other_key { K_OTHER } else { K_PEER }, revoked, aki: aki_value(s, o.aki),
-        number: if o.number { Some(42) } else { None }, unknown_ext: o.unknown_ext, ext_block: true })
+        number: if o.number { Some(42) } else { None }, unknown_ext: o.unknown_ext, ext_block: true, ign, ee_serial: big_or_small_serial(big_serial) })
 }
 
 fn show_ee(o: &EeO) -> String {
@@ -798,8 +851,8 @@ fn main() {
         });
         // same-field pairs: EE signed by other key AND expired / cA; CRL by other key AND stale / listing
         {
-            let base_ee = EeSpec { serial: EE_SERIAL.to_vec(), nb: T0 - W, na: T0 + W, subject_key: K_EE, sign_key: K_PEER, ski: None, aki: Some(s.key(K_PEER).ski.to_vec()), basic: Basic::Absent, key_usage_ext: false };
-            let base_crl = CrlSpec { this: T0 - W, next: T0 + W, sign_key: K_PEER, revoked: Some(vec![]), aki: Some(s.key(K_PEER).ski.to_vec()), number: Some(1), unknown_ext: false, ext_block: true };
+            let base_ee = EeSpec { serial: EE_SERIAL.to_vec(), nb: T0 - W, na: T0 + W, subject_key: K_EE, sign_key: K_PEER, ski: None, aki: Some(s.key(K_PEER).ski.to_vec()), basic: Basic::Absent, key_usage_ext: false, issuer: 0, subject: 0 };
+            let base_crl = CrlSpec { this: T0 - W, next: T0 + W, sign_key: K_PEER, revoked: Some(vec![]), aki: Some(s.key(K_PEER).ski.to_vec()), number: Some(1), unknown_ext: false, ext_block: true, ign: CrlIgn::DEFAULT, ee_serial: EE_SERIAL.to_vec() };
             let mut combos: Vec<(String, EeSpec, CrlSpec)> = Vec::new();
             let mut e = base_ee.clone(); e.sign_key = K_OTHER; e.na = T0 - 1; combos.push(("ee: other key + expired".into(), e, base_crl.clone()));
             let mut e = base_ee.clone(); e.sign_key = K_OTHER; e.basic = Basic::CaTrue; combos.push(("ee: other key + cA".into(), e, base_crl.clone()));
@@ -818,7 +871,7 @@ fn main() {
         }
         // informational only (no oracle): a CRL without any crlExtensions block
         {
-            let c = CrlSpec { this: T0 - W, next: T0 + W, sign_key: K_PEER, revoked: None, aki: None, number: None, unknown_ext: false, ext_block: false };
+            let c = CrlSpec { this: T0 - W, next: T0 + W, sign_key: K_PEER, revoked: None, aki: None, number: None, unknown_ext: false, ext_block: false, ign: CrlIgn::DEFAULT, ee_serial: EE_SERIAL.to_vec() };
             let bytes = assemble(&fx, &Plan::base(), &cache.ee(&fx, &Plan::base()), &crl(s, &c));
             let v = run(&bytes, &fx.peer, T0, Via::Relaxed);
             sp.set("crl_without_extension_block", serde_json::json!(v.show()));
@@ -940,6 +993,111 @@ fn main() {
         sp.set("attribute_settings", serde_json::json!(aplans.len()));
         sp.sample_str(|| format!("foreign order=ct,md,st extras=[] {} {} via=Strict when=T0+301s -> rejected (CRL stale, EE certificate still valid)", show_ee(&EeO { wide: true, ..EE_BASE }), show_crl(&CrlO { aki: 1, ..CRL_BASE })));
         sp.done(true, &format!("{} (EE, CRL) option pairs x 9 instants x 2 decoders; {} attribute settings x {} x {} reduced menus x 2 decoders", pairs.len(), aplans.len(), ee_red.len(), crl_red.len()));
+    }
+
+    //--- (b4) foreign: fields the acceptance predicate must ignore -------------------------------------------------
+    {
+        let sp = ctx.space("foreign.ignored",
+            "fields that must not influence the verdict, varied against listing state, windows and evaluation instants. Part A: revocation date of the entry listing the EE serial x revocation date of all other entries, each in {long before thisUpdate, = thisUpdate, T0+150 s (inside the window, after the earlier instants), = nextUpdate, a day after nextUpdate, year 2052 (GeneralizedTime), year 1949 (GeneralizedTime)} x revoked-list shape {others, others+ext, ee-only, ee-first, ee-middle, ee-last, ee-only with a leading-zero INTEGER} x CRL window narrow/wide x EE window narrow/wide x 9 instants x strict/relaxed. Part B: base and every single deviation (thorough: every pair) of {entry extensions 2, CRL number value 3, CRL issuer name 2, EE issuer name 2, EE subject name 2, signing-time value 3 (future, epoch, 2052), binary-signing-time value 2, signature-algorithm spelling 3, digest-algorithm NULL} x shape {empty, others, others+ext, ee-only, ee-middle, ee-last} x CRL AKI right/absent x the 10 EE base-and-single-deviation options x 9 instants x 2 decoders. Model: exactly the product-space model, blind to all of these fields (the leading-zero spelling may be refused at decode but must never validate); non-trivial = cases in which a listed EE serial carries a revocation date after the evaluation instant, or an ignored field deviates");
+        let offsets: [i64; 9] = [-1001, -1000, -301, -300, 0, 300, 301, 1000, 1001];
+        let judge = |e: &EeO, c: &CrlO, off: i64| -> (bool, bool) {
+            let stated = !e.other_key && e.basic != 2 && within(e.wide, off) && !c.other_key && within(c.wide, off) && c.revoked < 4;
+            let prof = e.aki != 2 && c.aki != 2 && !e.ski_other;
+            (stated, prof)
+        };
+        let oc: Mutex<BTreeMap<&'static str, u64>> = Mutex::new(BTreeMap::new());
+        let nt = Mutex::new(0u64);
+        let base = Plan::base();
+        let base_signed = presign(&fx, &base);
+        // Part A
+        let mut a_jobs: Vec<(CrlO, CrlIgn)> = Vec::new();
+        for wide in [false, true] { for shape in [2u8, 3, 4, 5, 6, 7, 8] { for ee_date in 0..N_DATES { for other_date in 0..N_DATES {
+            if shape < 4 && ee_date != 0 { continue }          // no EE entry: its date does not exist
+            if (shape == 4 || shape == 8) && other_date != 0 { continue } // no other entries
+            let c = CrlO { revoked: if shape == 8 { 4 } else { shape }, wide, ..CRL_BASE };
+            a_jobs.push((c, CrlIgn { ee_date, other_date, ee_leading_zero: shape == 8, ..CrlIgn::DEFAULT }));
+        }}}}
+        let ee_narrow = ee_from(s, &EE_BASE);
+        let ee_wide = ee_from(s, &EeO { wide: true, ..EE_BASE });
+        a_jobs.par_iter().for_each(|(c, ign)| {
+            let crl_der = crl_from_ign(s, c, false, *ign);
+            let mut local: BTreeMap<&'static str, u64> = BTreeMap::new();
+            let mut n = 0u64;
+            for (e, ee_der) in [(EE_BASE, &ee_narrow), (EeO { wide: true, ..EE_BASE }, &ee_wide)] {
+                let bytes = wrap(&fx, &base, &base_signed, false, ee_der, &crl_der);
+                for off in offsets { for via in [Via::Strict, Via::Relaxed] {
+                    let v = run(&bytes, &fx.peer, T0 + off, via);
+                    *local.entry(v.class()).or_insert(0) += 1;
+                    let (stated, prof) = judge(&e, c, off);
+                    let w = if c.wide { WIDE } else { NARROW };
+                    if c.revoked >= 4 && entry_date(ign.ee_date, T0 - w, T0 + w) > T0 + off { n += 1 }
+                    let wit = || format!("foreign order=ct,md,st extras=[] {} {} ee-entry-date={} other-entries-date={} ee-serial-leading-zero={} via={via:?} when=T0{off:+}s (dates: 0 thisUpdate-1000s, 1 thisUpdate, 2 T0+150s, 3 nextUpdate, 4 nextUpdate+1d, 5 year 2052, 6 year 1949)",
+                        show_ee(&e), show_crl(c), ign.ee_date, ign.other_date, ign.ee_leading_zero);
+                    // the non-minimal INTEGER may be refused outright; demanding acceptance of an unrelated-date CRL stays in force otherwise
+                    if ign.ee_leading_zero { expect(&ctx, "-", "C10.foreign.ignored.reject", false, &v, wit) }
+                    else { expect(&ctx, "C10.foreign.ignored.accept", "C10.foreign.ignored.reject", stated && prof, &v, wit) }
+                }}
+            }
+            sp.evals(36);
+            *nt.lock().unwrap() += n;
+            let mut g = oc.lock().unwrap(); for (k, v) in local { *g.entry(k).or_insert(0) += v }
+        });
+        // Part B
+        #[derive(Clone, Copy, Debug, PartialEq, Eq)]
+        struct Ign { crl: CrlIgn, ee_issuer: u8, ee_subject: u8, st: u8, bst: u8, sig_alg: u8, digest_null: bool }
+        let ign0 = Ign { crl: CrlIgn::DEFAULT, ee_issuer: 0, ee_subject: 0, st: 0, bst: 0, sig_alg: 0, digest_null: false };
+        // (field number, setter)
+        let mut devs: Vec<(u8, Box<dyn Fn(&mut Ign) + Sync>)> = Vec::new();
+        for v in 1..3u8 { devs.push((0, Box::new(move |i: &mut Ign| i.crl.entry_ext = v))) }
+        for v in 1..4u8 { devs.push((1, Box::new(move |i: &mut Ign| i.crl.number = v))) }
+        for v in 1..3u8 { devs.push((2, Box::new(move |i: &mut Ign| i.crl.issuer = v))) }
+        for v in 1..3u8 { devs.push((3, Box::new(move |i: &mut Ign| i.ee_issuer = v))) }
+        for v in 1..3u8 { devs.push((4, Box::new(move |i: &mut Ign| i.ee_subject = v))) }
+        for v in 1..4u8 { devs.push((5, Box::new(move |i: &mut Ign| i.st = v))) }
+        for v in 1..3u8 { devs.push((6, Box::new(move |i: &mut Ign| i.bst = v))) }
+        for v in 1..4u8 { devs.push((7, Box::new(move |i: &mut Ign| i.sig_alg = v))) }
+        devs.push((8, Box::new(|i: &mut Ign| i.digest_null = true)));
+        let mut igns: Vec<Ign> = vec![ign0];
+        for (_, f) in &devs { let mut i = ign0; f(&mut i); igns.push(i) }
+        if thorough {
+            for (a, (fa, f)) in devs.iter().enumerate() { for (fb, g) in devs.iter().skip(a + 1) { if fa != fb { let mut i = ign0; f(&mut i); g(&mut i); igns.push(i) } } }
+        }
+        let ee_red = ee_reduced();
+        let mut b_jobs: Vec<(Ign, CrlO, EeO)> = Vec::new();
+        for i in &igns { for shape in [0u8, 2, 3, 4, 6, 7] { for aki in [0u8, 1] { for e in &ee_red {
+            b_jobs.push((*i, CrlO { revoked: shape, aki, ..CRL_BASE }, *e));
+        }}}}
+        let st_value = |v: u8| match v { 0 => T0 - 60, 1 => T0 + 1_000_000, 2 => 0, _ => 2_600_000_000i64 };
+        b_jobs.par_iter().for_each(|(ign, c, e)| {
+            let mut p = Plan::base();
+            p.st_secs = st_value(ign.st); p.sig_alg = ign.sig_alg; p.digest_null = ign.digest_null;
+            if ign.bst != 0 { p.extras = vec![Extra::Bst]; p.bst_secs = if ign.bst == 1 { T0 + 1_000_000 } else { 1 } }
+            let ps = presign(&fx, &p);
+            let w = if e.wide { WIDE } else { NARROW };
+            let ee_der = ee_cert(s, &EeSpec { serial: big_or_small_serial(e.big_serial), nb: T0 - w, na: T0 + w, subject_key: K_EE, sign_key: if e.other_key { K_OTHER } else { K_PEER },
+                ski: if e.ski_other { Some(s.key(K_EE2).ski.to_vec()) } else { None }, aki: aki_value(s, e.aki),
+                basic: match e.basic { 0 => Basic::Absent, 1 => Basic::EmptySeq, _ => Basic::CaTrue }, key_usage_ext: e.key_usage, issuer: ign.ee_issuer, subject: ign.ee_subject });
+            let crl_der = crl_from_ign(s, c, e.big_serial, ign.crl);
+            let bytes = wrap(&fx, &p, &ps, e.ski_other, &ee_der, &crl_der);
+            let mut local: BTreeMap<&'static str, u64> = BTreeMap::new();
+            for off in offsets { for via in [Via::Strict, Via::Relaxed] {
+                let v = run(&bytes, &fx.peer, T0 + off, via);
+                *local.entry(v.class()).or_insert(0) += 1;
+                let (stated, prof) = judge(e, c, off);
+                expect(&ctx, "C10.foreign.ignored.accept", "C10.foreign.ignored.reject", stated && prof, &v,
+                    || format!("foreign order=ct,md,st {} {} ignored-fields={{entry-ext={} crl-number={} crl-issuer={} ee-issuer={} ee-subject={} signing-time={} binary-signing-time={} sig-alg={} digest-null={}}} via={via:?} when=T0{off:+}s",
+                        show_ee(e), show_crl(c), ign.crl.entry_ext, ign.crl.number, ign.crl.issuer, ign.ee_issuer, ign.ee_subject, ign.st, ign.bst, ign.sig_alg, ign.digest_null));
+            }}
+            sp.evals(18);
+            if *ign != ign0 { *nt.lock().unwrap() += 18 }
+            let mut g = oc.lock().unwrap(); for (k, v) in local { *g.entry(k).or_insert(0) += v }
+        });
+        sp.merge_outcomes(&oc.lock().unwrap());
+        sp.nontrivial(*nt.lock().unwrap());
+        sp.set("date_crls", serde_json::json!(a_jobs.len()));
+        sp.set("ignored_field_settings", serde_json::json!(igns.len()));
+        sp.sample_str(|| format!("{} ee-entry-date=2 (T0+150s) when=T0-300s -> rejected: the EE serial is listed, whatever the entry's date", show_crl(&CrlO { revoked: 6, ..CRL_BASE })));
+        sp.done(true, &format!("{} dated CRLs x 2 EE windows x 9 instants x 2 decoders; {} ignored-field settings x 6 shapes x 2 x 10 EE options x 9 instants x 2 decoders", a_jobs.len(), igns.len()));
     }
 
     //--- (c) every single-bit flip -------------------------------------------------------------------------------
